@@ -189,8 +189,8 @@ Section Decode.
 (* oracles: the environment / property files, and library parsers *)
 Variable env : str -> option str.                    (* os.LookupEnv *)
 Variable prop : str -> str -> option str.            (* property file -> key -> value (None: file or key missing) *)
-Inductive okind := ODur | OSize | OText | OInt (bits : N) | OEndpoint | OUrlPath.
-Variable orc : okind -> str -> option Z.             (* time.ParseDuration, datasize, TextUnmarshaler, strconv.ParseInt(s,0,bits), validators *)
+Inductive okind := ODur | OSize | OText | OInt (bits : N) | OUint (bits : N) | OEndpoint | OUrlPath.
+Variable orc : okind -> str -> option Z.             (* time.ParseDuration, datasize, TextUnmarshaler, strconv.ParseInt(s,0,bits), strconv.ParseUint(s,0,bits), validators *)
 Variable orcq : str -> option Q.                     (* strconv.ParseFloat *)
 Variable reg : list entry.                           (* the plugin registry *)
 Variable factory_lazy : bool.                        (* Registry.NewFactory decodes a plugin constructor's config only at the first factory call *)
@@ -335,7 +335,7 @@ Definition cast_text (target : schema) (r : str) : hres :=
   match cast_kind target with
   | CKBool => match parse_bool r with Some x => HVal (VBool x) | None => HVal (VStr r) end
   | CKInt bits => match orc (OInt bits) r with Some z => HVal (VInt z) | None => HVal (VStr r) end
-  | CKUint bits => match orc (OInt bits) r with Some z => HVal (VInt (wrap_uint bits z)) | None => HVal (VStr r) end
+  | CKUint bits => match orc (OUint bits) r with Some z => HVal (VInt z) | None => HVal (VStr r) end   (* ParseUint: no sign, the whole unsigned range (df402fa) *)
   | CKFloat => match orcq r with Some q => HVal (VFloat q) | None => HVal (VStr r) end
   | CKString => HVal (VStr r)
   | CKOther => HErr EPlaceholder            (* ErrUnsupportedKind is returned as the hook's error *)
